@@ -76,7 +76,7 @@ fn check_quantity(what: &str, before: &Value, bunit: Option<&str>, after: &Scale
     vensure!(c0 == c1, "c08.unit-class-changed", "{what}: {before:?} {bunit:?} became {after:?} (different physical quantity / unit); source {src:?}");
     let (el, eh) = (l0 * factor, h0 * factor);
     vensure!(
-        approx_eq(l1, el, 1e-9, 1e-12) && approx_eq(h1, eh, 1e-9, 1e-12),
+        approx_eq(l1, el, 1e-9, 0.0) && approx_eq(h1, eh, 1e-9, 0.0),
         if factor == 1.0 { "c08.fixed-amount-changed" } else { "c08.scaled-amount-wrong" },
         "{what}: {before:?} {bunit:?} x {factor} must be {el:e}..{eh:e} base units but {after:?} is {l1:e}..{h1:e}; source {src:?}"
     );
@@ -255,7 +255,7 @@ fn m_first_servings(m: &crate::model::RecipeM) -> Option<u32> {
     use crate::model::*;
     if let Some(front) = &m.front {
         for (k, v) in front {
-            if k == "servings" {
+            if is_servings_key(k) {
                 return match v {
                     YamlM::Int(i) => Some(*i as u32),
                     YamlM::List(l) => match l.first() {
@@ -270,7 +270,7 @@ fn m_first_servings(m: &crate::model::RecipeM) -> Option<u32> {
     }
     for b in &m.blocks {
         if let BlockM::Meta(k, v) = b {
-            if k == "servings" {
+            if is_servings_key(k) {
                 return v.split('|').next().and_then(|s| s.trim().split(' ').next()?.parse().ok());
             }
         }
@@ -280,8 +280,8 @@ fn m_first_servings(m: &crate::model::RecipeM) -> Option<u32> {
 
 pub fn run(tier: Tier) -> i32 {
     let mut run = Run::new("C08", tier);
-    run.assume("amounts are compared in base units with the bundled converter's own ratios (relative 1e-9); unknown or missing units are compared in the written unit");
-    run.assume("factors are finite and positive (1e-3..1e3 and 1, 2, 1/2, 1/3); serving counts 1..=64; ingredient units are never temperatures");
+    run.assume("amounts are compared in base units with the bundled converter's own ratios (relative 1e-9, no absolute slack: a tiny product must not collapse to zero); unknown or missing units are compared in the written unit");
+    run.assume("factors are finite and positive (1e-3..1e3, the special values 1, 2, 1/2, 1/3, 3 and the extremes 1e-250..1e12, chosen so that every product stays a normal float); serving counts 1..=64; ingredient units are never temperatures");
     run.replay_regressions(&|_p, j| oracle(&case_from(j)?, &mut Stats::default()));
     if !run.failed() {
         run_prop(
@@ -289,11 +289,16 @@ pub fn run(tier: Tier) -> i32 {
             "scale",
             "generated Ext recipes (all value kinds, locks, known/unknown/missing units, references, timers, cookware, inline quantities, declared servings) scaled by a random factor, default-scaled, and scaled to n servings; oracle: per-component physical amounts, outcome table, verbatim default scaling, JSON equality of scale_to_servings(n) with scale(n/first servings); non-trivial = at least one linear ingredient quantity; distinct = distinct (source, factor)",
             || {
-                let f = prop_oneof![3 => (1e-3f64..1e3), 2 => (0.1f64..10.0), 1 => proptest::sample::select(vec![1.0, 2.0, 0.5, 1.0 / 3.0, 3.0])];
+                let f = prop_oneof![
+                    3 => (1e-3f64..1e3),
+                    2 => (0.1f64..10.0),
+                    1 => proptest::sample::select(vec![1.0, 2.0, 0.5, 1.0 / 3.0, 3.0]),
+                    1 => proptest::sample::select(vec![1e-7, 1e-10, 1e-30, 1e-100, 1e-250, 1e6, 1e12, 5e-4]),
+                ];
                 (raw_recipe(Some(true)), f, 1u32..=64).prop_map(|(mut raw, f, servings)| {
                     // declare servings often
                     if servings % 3 != 0 {
-                        let k = [0u8, 1, 8, 9][(servings % 4) as usize];
+                        let k = [0u8, 1, 8, 9, 10, 11][(servings % 6) as usize];
                         raw.front_std.insert(0, k);
                         raw.blocks.insert(0, RawBlock::StdMeta(k));
                     }
